@@ -531,9 +531,45 @@ def r4_restoration(ctx, sym, mod):
               "after resolve() the main code is still a section")
     rc = ctx.repo.module('pedal.resolvers.core')
     mk = rc.func('make_resolver')
-    ok = any(call_name(c) == 'report.execute_hooks' for c in ast.walk(mk) if isinstance(c, ast.Call))
-    ctx.check(ok, 'R4', 'make_resolver:triggers', rc, mk, "resolvers no longer trigger the resolve event",
-              "section restoration never runs")
+    ctx.analysed_function(rc, mk)
+    # make_resolver executed: every call of the resolver it builds triggers the resolve event on its report before the
+    # resolver function runs - also the call after one whose resolver function raised (a batch grader catches that and
+    # goes on to the next submission)
+    from .. import symexec
+    from ..fdeval import Raised as _Raised
+    for history in (('ok',), ('ok', 'ok'), ('raises', 'ok'), ('raises', 'raises', 'ok')):
+        rec = symexec.Recorder()
+        rep = Obj('report')
+        symexec.method(rep, 'execute_hooks', rec.stub('execute_hooks'))
+        state = {'i': 0}
+
+        def resolver_function(*a, **k):
+            rec.events.append(('resolver-function', a, k))
+            outcome = history[state['i']]
+            state['i'] += 1
+            if outcome == 'raises':
+                raise _Raised('AttributeError', "a faulty priority_key")
+            return 'final feedback'
+        fd = symexec.new_fd(sym, rc, extra={'MAIN_REPORT': rep})
+        wrapper, raised = symexec.run(fd, mk, [resolver_function], what='make_resolver')
+        ctx.require(raised is None and callable(wrapper), "make_resolver returns the wrapped resolver")
+        fired_before = []
+        for outcome in history:
+            n0 = len(rec.events)
+            try:
+                wrapper(rep)
+            except _Raised:
+                pass
+            evs = rec.events[n0:]
+            names = [e[0] for e in evs]
+            hook = [e for e in evs if e[0] == 'execute_hooks' and tuple(e[1][:2]) == ('pedal.resolvers', 'resolve')]
+            fired_before.append(bool(hook) and 'resolver-function' in names and
+                                names.index('execute_hooks') < names.index('resolver-function'))
+        ctx.check(all(fired_before), 'R4', 'make_resolver:triggers[%s]' % ','.join(history), rc, mk,
+                  "over the resolver calls %s the resolve event is triggered before the resolver function on calls %s "
+                  "only" % (list(history), [i + 1 for i, f in enumerate(fired_before) if f]),
+                  "a first submission whose resolve() raised (caught by the batch grader), then a sectioned "
+                  "submission: its sections are not stopped when it is resolved, the main code stays the last section")
 
 
 def run(ctx):
